@@ -339,6 +339,24 @@ theorem C15_row_reading_order (doc : Region) (rows : List (List Line)) (hc : Cle
     rowReadingOrder .rtl doc = .ok (rows.map List.reverse).flatten :=
   ⟨C15_ltr_row_major rows hc _ hp, C15_rtl_reverses_rows rows hc _ hp⟩
 
+/-- the dispatcher `sort_lines_in_reading_order(doc, row_order=True, reading_direction=…)` on a document
+    whose lines form clean rows: row-major for ltr, every row reversed for rtl — BOTH options reach the
+    ordering (wave 4: an entry point of its own) -/
+theorem C15_dispatcher_row_order (doc : Region) (rows : List (List Line)) (hc : CleanRows rows)
+    (hp : (getLines doc).filter (·.hasText) ~ rows.flatten) :
+    sortLinesInReadingOrder true .ltr doc = .ok rows.flatten ∧
+    sortLinesInReadingOrder true .rtl doc = .ok (rows.map List.reverse).flatten :=
+  C15_row_reading_order doc rows hc hp
+
+/-- the dispatcher with `row_order=False`: column reading order of a document nested to any depth, in
+    the direction asked for -/
+theorem C15_dispatcher_column_order (doc : Region) (es : List (Region × List (List Line)))
+    (hv : Visits doc (es.map (·.1)))
+    (hrows : ∀ e ∈ es, CleanRows e.2 ∧ e.1.lines.filter (·.hasText) ~ e.2.flatten) :
+    sortLinesInReadingOrder false .ltr doc = .ok (es.flatMap (fun e => e.2.flatten)) ∧
+    sortLinesInReadingOrder false .rtl doc = .ok (es.flatMap (fun e => (e.2.map List.reverse).flatten)) :=
+  (C15_column_reading_order_nested doc es hv hrows).2
+
 /-! ## clean grids: an r × c arrangement with missing cells -/
 
 /-- every shuffle of the cells of a clean grid: ltr is row-major, rtl reverses the rows, the
@@ -418,6 +436,17 @@ theorem C15_translate_sorted (dx dy : Int) (ls : List Line) :
     | cons x xs ih => intro acc; simp only [map_cons, foldl_cons, hins, ih]
   exact h ls []
 
+/-- for every document, flag and direction the dispatcher is one of the two orders (no third behaviour),
+    hence it loses / duplicates nothing and commutes with translation whenever they do -/
+theorem C15_dispatcher_is_row_or_column (row : Bool) (dir : Dir) (doc : Region) :
+    sortLinesInReadingOrder row dir doc = (if row then rowReadingOrder dir doc else columnReadingOrder dir doc) ∧
+    ∀ dx dy, sortLinesInReadingOrder row dir (doc.shift dx dy)
+      = (sortLinesInReadingOrder row dir doc).map (fun o => o.map (Line.shift dx dy)) := by
+  refine ⟨rfl, fun dx dy => ?_⟩
+  cases row
+  · exact (C15_translate dx dy).2.2.2.2.2.2.2.2.1 dir doc
+  · exact (C15_translate dx dy).2.2.2.2.2.2.2.2.2 dir doc
+
 /-! ## non-vacuity: concrete, non-trivial values meeting the hypotheses -/
 
 section Examples
@@ -461,6 +490,9 @@ example : Visits (.mk 0 ⟨0, 0, 220, 72⟩ [.mk 2 ⟨120, 0, 220, 72⟩ [] [exD
     simp only [mem_cons, not_mem_nil, or_false] at he
     rcases he with rfl | rfl <;> exact Visits.leaf _ _ _
 example : CleanRows [[exA], [exC]] ∧ CleanRows [[exB], [exD]] := by decide
+/-- the dispatcher with row_order and rtl on a flat region holding the four lines in any order -/
+example : sortLinesInReadingOrder true .rtl (.mk 0 ⟨0, 0, 220, 72⟩ [] [exD, exN, exA, exC, exB]) = .ok [exB, exA, exD, exC] :=
+  (C15_dispatcher_row_order _ [[exA, exB], [exC, exD]] (by decide) (by decide)).2
 
 end Examples
 
